@@ -39,6 +39,7 @@ def literal_bytes():
                 return [(st, E.VInt(EPOCH))]
             return [(st, E.VInt(z3.Int('local_wall_clock')))]
         ex.hooks[('ext', 'calendar.timegm')] = timegm
+        scn.local_zone_reading(ex)
         for pi, (s, v) in enumerate(r.call(me, [])):
             if isinstance(v, E.Raise):
                 r.oblige(s, 'safety(%s)/p%d' % (v.exc, pi), z3.BoolVal(False), v.where)
@@ -57,6 +58,7 @@ def literal_bytes():
         r2.set('pkt', '_contents', ex2.new_buf(st2, DATA))
         r2.hook('pgpy.packet.types.Packet', '__bytearray__', scn.method_hook(lambda ex, st, o, a: [(st, ex.new_buf(st, HDR))]))
         ex2.hooks[('ext', 'calendar.timegm')] = timegm
+        scn.local_zone_reading(ex2)
         nraise = 0
         for pi, (s, v) in enumerate(r2.call(E.VObj(P + 'LiteralData', 'pkt'), [])):
             if isinstance(v, E.Raise):
